@@ -1,8 +1,10 @@
 //! ohsl-conf: conformance harness binding the TLA+ specifications in /verif/spec to the real crate.
 //!   ohsl-conf gen  <suite> <tier> <seed> <cases.ndjson>     generate cases (inputs only)
 //!   ohsl-conf exec <suite> <cases.ndjson> <events.ndjson>   run the real code on each case, log events
-mod rat; mod dd; mod util;
-mod dense;
+//! Suites live in src/suites/<name>.rs and are registered automatically by build.rs.
+#![allow(dead_code)]
+pub mod rat; pub mod dd; pub mod util;
+pub mod suites { include!(concat!(env!("OUT_DIR"), "/suites_gen.rs")); }
 use util::*;
 
 fn main() {
@@ -13,20 +15,14 @@ fn main() {
         "gen" => {
             let seed: u64 = a[4].parse().unwrap_or(1);
             let mut out = Out::create(&a[5]);
-            match a[2].as_str() {
-                "dense" => dense::gen(&a[3], seed, &mut out),
-                s => { eprintln!("TOOL-ERROR unknown suite {}", s); std::process::exit(2) }
-            }
+            if !suites::gen(&a[2], &a[3], seed, &mut out) { eprintln!("TOOL-ERROR unknown suite {}", a[2]); std::process::exit(2) }
             println!("cases {}", out.n); out.finish();
         }
         "exec" => {
             let cases = read_ndjson(&a[3]);
             let mut out = Out::create(&a[4]);
             for c in &cases {
-                match a[2].as_str() {
-                    "dense" => dense::exec(c, &mut out),
-                    s => { eprintln!("TOOL-ERROR unknown suite {}", s); std::process::exit(2) }
-                }
+                if !suites::exec(&a[2], c, &mut out) { eprintln!("TOOL-ERROR unknown suite {}", a[2]); std::process::exit(2) }
             }
             println!("events {}", out.n); out.finish();
         }
